@@ -62,7 +62,7 @@ CLAIMS.update({
         'with the linear/constant/all-zero fallbacks; solve_cubic returns exactly the real roots in all three discriminant branches (sound and complete), no '
         'duplicates off the triple root, c3 = 0 delegates to the quadratic; quartic reductions c4 = 0 / c0 = 0; ITP keeps the bracket, uses at most nmax+1 '
         'iterations and returns a point within epsilon of the zero of a monotone (or continuous) function. NOT proved: the general quartic (LDL^T path is not '
-        'in the model: oracle only), every float-level claim. Two known findings (negligible leading coefficient).',
+        'in the model: oracle only), every float-level claim. Three known findings (negligible leading coefficient x2; cancellation in the one-root branch for nearly pure cubics, up to 3e-6 relative); two defects repaired (x^4 + c x + d returned no roots; biquadratics returned non-roots) - the biquadratic branch is modelled and proved to return exactly the real roots.',
    ref='6 / C15'),
 })
 CLAIMS.update({
@@ -91,7 +91,7 @@ CLAIMS.update({
    ref='6 / C18'),
  'C01': dict(
    text='Proved about the model of winding (Kurbo/Curve.lean), see the header of lean/Proofs/C01.lean for the exact list: the line branch of winding_inner (x-extent early outs included) is the half-open crossing indicator of the leftward ray for EVERY segment and point; on polyline paths pathWinding is the sum of these indicators and, over R, for every list of closed polyline sub-paths (self-intersections, repeated vertices, rows through vertices included) and every point off the path it EQUALS the angle-sum (topological) winding number; reversal negates, inserting a vertex / splitting a line leaves it unchanged, additivity over sub-paths, contains = (winding != 0); for curved segments: winding = sum of winding_inner over the pieces between extrema, and on ONE y-injective piece the quad/cubic branch counts the ray crossing with the half-open rule given the solver specification of C15. The implementation (all path kinds, curved, self-intersecting, multi-contour, rows through vertices/extrema) is decided against an exact rational winding oracle (Sturm isolation of ray crossings) and compared with the exact model; reversal/split/affine metamorphic checks.',
-   note='NOT proved: curved paths as a whole (tiling of the monotone pieces, homotopy to a polygon) and the affine law - both decided by the exact oracle only. IEEE rounding is outside the theorems. One known finding (degree-raised cubic: root cause in solve_cubic, C15); two defects of the pinned tree repaired (rows through vertices / end points).',
+   note='NOT proved: curved paths as a whole (tiling of the monotone pieces, homotopy to a polygon) and the affine law - both decided by the exact oracle only. The solver hypothesis of the one-piece theorems is discharged in Proofs/Glue.lean (windingInner_*_monotone_unconditional). IEEE rounding is outside the theorems. One known finding (degree-raised cubic: root cause in solve_cubic, C15); two defects of the pinned tree repaired (rows through vertices / end points).',
    ref='6 / C01'),
  'C03': dict(
    text='Proved: the three Gauss-Legendre tables of the model (8/16/24 points, regenerated from common.rs on every run and re-proved equal: GenEquivGL) are symmetric, '
@@ -112,7 +112,7 @@ CLAIMS.update({
    ref='6 / C08'),
  'C09': dict(
    text='Proved (header of lean/Proofs/C09.lean): Line::nearest returns t in [0,1], distance_sq = |p - eval t|^2 and it is the minimum over [0,1] (all branches, any lawful field); the coefficients QuadBez::nearest hands to solve_cubic are those of 1/4 d/dt|p - q(t)|^2; the result is always one of the evaluated candidates with t in [0,1] (any Scalar, also Float: the unwrap_or default is unreachable); over R with the real sqrt/cbrt/sin/cos/atan2 (C15 solver theorems) the returned squared distance IS the minimum over the quadratic (need_ends rule shown sound); CubicBez::nearest = first best piece of to_quads(a), pieces tile [0,1], and |sqrt distance_sq - dist| <= a, |p - c(t)| <= dist + 2a given the C17 to_quads bound; PathSeg dispatch. Implementation decided against an exact distance oracle (Sturm-isolated critical points) and compared with the model.',
-   note='The C17 bound enters as hypothesis ToQuadsWithin (converted from toQuads_error_bound). Nothing about Float rounding in the theorems. One known finding (straight curves with collinear control polygon: the cubic solver is in its negligible-leading-coefficient regime, C15).',
+   note='The C17 bound and the C15 solver theorems are combined in Proofs/Glue.lean: cubic_nearest_within_unconditional / pathSeg_nearest_within_unconditional have no to_quads and no solver hypothesis left (R, real function laws, a > 0, below the usize saturation bound). Nothing about Float rounding in the theorems. One known finding (curves that are degree-raised lines up to rounding: the cubic solver is in its negligible-leading-coefficient regime, C15).',
    ref='6 / C09'),
  'C10': dict(
    text='Proved (header of lean/Proofs/C10.lean): for EVERY scalar type the outline structure of line/quad/cubic/rect/triangle (exact reproduction), arcs (exactly n CurveTo, piece k from angle theta_k to theta_k+1, joined end to end, never panics), circles (MoveTo, n CurveTo, ClosePath; returns exactly to its start), rounded rectangles, circle segments and ellipses; over R with real sin/cos/tan/pi: every element end point lies on the ideal ellipse/circle, control arms are arm_len times the derivative, one traversal (accumulated angle = start + sweep, delta_th n = 2 pi), closedness of every closed shape, and the TOLERANCE claim for circles - for every circle and every T>0 every point of the outline is within T of the ideal circle (both branches; exact rational certificates) - and for circular arcs with R/T >= 13997.2; Affine::svd diagonalises. Implementation decided against exact geometry oracles (outline samples vs ideal shape, one traversal by exact winding/area) and Float-model correspondence.',
@@ -120,7 +120,7 @@ CLAIMS.update({
    ref='6 / C10'),
  'C11': dict(
    text="Proved (header of lean/Proofs/C11.lean; lawful ordered field): Rect winding = path winding of its own outline for EVERY point (boundary included, any corner order), half-open tiling theorems (interval, two tiles, m x n grid: every point in exactly one tile), Rect area/bbox/perimeter = those of the outline, tightness; Triangle winding = path winding off the edges for every non-degenerate triangle (both orientations), area/bbox/perimeter; RoundedRect: from_rect normalises, winding = 1 iff the point is in the ideal rounded rectangle (four different radii), bbox tight, area/perimeter formulas; Circle/Ellipse/CircleSegment: winding iff the open ideal set, bbox tight, area/perimeter with symbolic pi. Implementation decided by comparing every closed form with the exact winding/area/bbox oracles run on the shape's own outline (C10).",
-   note="Degenerate triangle (zero area): closed form returns 1 where the outline gives 0 - outside the property's quantifier, documented, not flagged. Ellipse perimeter (AGM) is compared with a high-precision quadrature, not proved. Curved shapes are compared with the IDEAL set in the theorems and with the outline by the oracle.",
+   note="Degenerate triangle (zero area): closed form returns 1 where the outline gives 0 - outside the property's quantifier, documented, not flagged. Ellipse perimeter (Kummer series / AGM) is compared with the outline length, not proved; one known finding (it misses the requested accuracy by a few percent above aspect ratio 50, as the property record itself says). Curved shapes are compared with the IDEAL set in the theorems and with the outline by the oracle.",
    ref='6 / C11'),
  'C13': dict(
    text='Dash iterator modelled state for state (NeedInput/ToStash/Working/FromStash, stash, close-path handling, phase reset) and compared element for element with '
@@ -135,7 +135,7 @@ CLAIMS.update({
         'the pattern is empty, fit_inside fuel is irrelevant. Decided on the implementation built with add-only work counters (--cfg kurbo_verif): no panic, only '
         'finite numbers, work <= 1e7 on exhaustive degenerate paths x all ops x join/cap/dash combinations and every SVG string to length 3/4 over an 18-symbol alphabet.',
    note='Termination of fit_to_bezpath_rec/opt and NaN-freedom of the stroker rest on floating-point granularity and are decided by budgeted replay only, not by a theorem. '
-        'One known finding (fit_to_bezpath_opt unwrap on closed-loop cubics); three defects repaired.',
+        'Six defects repaired (QuadBez::arclen NaN at scale, simplify on empty sub-paths, stroke NaN on double cusps, fit_to_bezpath_opt panic on loops, stroke hang on ulp-long curves, minutes-long fitting at coordinates ~1e6). SVG numerals beyond 1e15 (e.g. 1e999) and arcs with such numerals are treated as outside the supported coordinate range.',
    ref='6 / C14'),
  'C16': dict(
    text='Proved about the byte-level model of SvgLexer/from_svg (bit-identical to the crate on every string to length 3/4 over 18 symbols and random strings): lexer '
